@@ -178,6 +178,13 @@ func TestCorpusC17(t *testing.T) {
 		c17Run(c17Case{"raw profile " + strconv.Quote(p), p, baseData}, sigs)
 		n++
 	}
+	// custom rego that interferes with the report rule's own names
+	for _, ext := range []string{`violation[x] { x := "boom" }`, `warning[x] { x := 5 }`, `info[x] { x := [1] }`, `violation[x] { x := {"a": 1} }`, `violation[x] { x := {"@type": 5, "trace": 7} }`,
+		`violation[x] { x := null }`, `report["profile"] = 5`, `report["extra"] = {"a": [1, 2]}`, `report["violation"] = 5`, `default violation = 3`, `warning = 5`, `trace(a, b, c, d) = 5 { true }`, `find = 3`} {
+		p := "#%Validation Profile 1.0\nprofile: P\nviolation:\n  - v1\nvalidations:\n  v1:\n    targetClass: apiContract.WebAPI\n    message: m\n    propertyConstraints:\n      core.name:\n        minCount: 9\nrego_extensions: |\n  " + ext + "\n"
+		c17Run(c17Case{"rego_extensions " + strconv.Quote(ext), p, baseData}, sigs)
+		n++
+	}
 	for n < budget {
 		if r.Intn(2) == 0 && len(profiles) > 0 {
 			pf := profiles[r.Intn(len(profiles))]
